@@ -56,6 +56,22 @@ def task(W, payload):
             d["task"] = {"module": "c01", "fn": "task", "payload": payload}
             d["program"] = prog["build"]
             out["diffs"].append(d)
+    # a state given as whole numbers of people in an INTEGER array (what a user holding counts passes to one_step): same rate laws
+    x = fix_categories(r, gen_state(r, n, "interior"), prog["meta"]["comps"], prog["meta"]["mixing_strats"])
+    xi = [q(Fr(int(Fr(v)) + 1)) for v in x]
+    t = t0 + Fr(r.randint(0, 4 * prog["meta"]["nsteps"]), 4) * dt
+    before = len(S.log)
+    py, ln = S.one_step(params, q(t), xi, stages=("S4", "S5"), extra={"x_dtype": "int"})
+    out["evals"] += 1
+    out["feat"]["state:integer_array"] = out["feat"].get("state:integer_array", 0) + 1
+    if py.get("ok") and len(py.get("flow_rates", [])) >= 2:
+        out["cases"].append(h + ":int")
+    for d in S.log[before:]:
+        d = dict(d)
+        d["prescribed"] = d["stage"] in ("S2", "S4", "S5")
+        d["task"] = {"module": "c01", "fn": "task", "payload": payload}
+        d["program"] = prog["build"]
+        out["diffs"].append(d)
     if payload["index"] % 4 == 3:
         euler_defaults(S, r, prog, params, payload, out)
     if payload["index"] == 0:
